@@ -3,7 +3,7 @@
 Every run regenerates the harness crate, compiles it together with /repo's *current working tree*
 (path dependency) with Kani's compiler, and decides each harness with a solver.
 """
-import json, os, re, subprocess, sys, time, hashlib, shutil, resource, threading
+import copy, json, os, re, subprocess, sys, time, hashlib, shutil, resource, threading
 from concurrent.futures import ThreadPoolExecutor
 
 VERIF = os.path.dirname(os.path.dirname(os.path.abspath(__file__)))
@@ -51,6 +51,9 @@ UF_STUBS = {
     "atan2": [("glam::f32::math::atan2", "shim::atan2_32"), ("glam::f64::math::atan2", "shim::atan2_64")],
     "exp": [("glam::f32::math::exp", "shim::exp32"), ("glam::f64::math::exp", "shim::exp64")],
     "powf": [("glam::f32::math::powf", "shim::powf32"), ("glam::f64::math::powf", "shim::powf64")],
+    "mul_add": [("glam::f32::math::mul_add", "shim::mul_add32"), ("glam::f64::math::mul_add", "shim::mul_add64")],
+    "div_euclid": [("glam::f32::math::div_euclid", "shim::div_euclid32"), ("glam::f64::math::div_euclid", "shim::div_euclid64")],
+    "rem_euclid": [("glam::f32::math::rem_euclid", "shim::rem_euclid32"), ("glam::f64::math::rem_euclid", "shim::rem_euclid64")],
     "acos_approx": [("glam::f32::math::acos_approx", "shim::acos_approx32"), ("glam::f64::math::acos_approx", "shim::acos_approx64")],
 }
 
@@ -214,9 +217,9 @@ unexpected_cfgs = {{ level = "allow", check-cfg = ['cfg(kani)'] }}
     wr(os.path.join(cdir, "src", "bin", "replay.rs"), REPLAY_MAIN)
 
 
-def kani_codegen(cdir, cfg, tag, log):
+def kani_codegen(cdir, cfg, tag, log, slot=None):
     """compile the harness crate (and /repo's working tree) with Kani; returns list of harness metadata"""
-    tdir = os.path.join(BUILD, "target", f"kani-{cfg}")
+    tdir = os.path.join(BUILD, "target", f"kani-{cfg}" + (f"-{slot}" if slot is not None else ""))
     env = dict(os.environ, RUSTFLAGS="--cap-lints warn", CARGO_NET_OFFLINE="true")
     env.pop("RUSTUP_TOOLCHAIN", None)
     t0 = time.time()
@@ -370,6 +373,7 @@ def smt_solve(path, solver, timeout):
     rc, out, err, secs = run_capped(cmd, timeout + 10, mem_gb=8)
     if rc is None:
         return "timeout", "", secs
+    out = out + ("\n" + err if err else "")
     first = out.strip().splitlines()[0].strip() if out.strip() else ""
     if "(error" in out and first not in ("sat", "unsat"):
         return "error", out[:500], secs
@@ -385,8 +389,9 @@ def smt_model_inputs(out):
     """pull inp[[k]] values out of the get-value answers"""
     vals = [0] * NIN
     found = False
-    for m in re.finditer(r"\(\(\|goto_symex::return_value::[^|]*kani3any[^|]*!0#\d+\[\[(\d+)\]\]\|\s+(#x[0-9a-fA-F]+|#b[01]+)\)\)", out):
-        k = int(m.group(1)); v = m.group(2)
+    # CBMC prints array element indices in hexadecimal ([[A]] = element 10); every symbol that carries the kani::any() array holds the same value
+    for m in re.finditer(r"\(\(\|[^|]*(?:any_raw_array|kani3any)[^|]*\[\[([0-9A-Fa-f]+)\]\]\|\s+(#x[0-9a-fA-F]+|#b[01]+)\)\)", out):
+        k = int(m.group(1), 16); v = m.group(2)
         val = int(v[2:], 16) if v[1] == "x" else int(v[2:], 2)
         if k < NIN:
             vals[k] = val
@@ -409,7 +414,20 @@ class Result:
 
 
 def decide(h, goto, workdir, tier_cap):
-    """decide one harness. returns Result"""
+    """decide one harness; an SMT-routed harness whose formula cannot be dumped/parsed (constructs CBMC's SMT2 encoder lacks, e.g.
+    round-to-integral or float remainder) is re-decided by the SAT back end"""
+    r = decide1(h, goto, workdir, tier_cap)
+    if h.backend == "smt" and r.status == "inconclusive" and ("smt2 dump failed" in r.detail or "=error" in r.detail):
+        h2 = copy.copy(h)
+        h2.backend = "sat"
+        r2 = decide1(h2, goto, workdir, tier_cap)
+        r2.h = h
+        r2.solver += " (SAT fallback: SMT2 encoder lacks a construct)"
+        return r2
+    return r
+
+
+def decide1(h, goto, workdir, tier_cap):
     r = Result(h)
     cap = h.cap or tier_cap
     flags = list(CBMC_FLAGS)
